@@ -1,5 +1,5 @@
 (* C22 - A query's answers do not depend on earlier queries. *)
-From Suiron Require Import Model.Term Model.Subst Model.Rename Model.Solve Proofs.SolveFrame.
+From Suiron Require Import Model.Term Model.Subst Model.Rename Model.Solve Model.PResult Model.Api Proofs.SolveFrame.
 
 (* All state that outlives a query is the record `world` (Model/Solve.v): the variable-id
    counter, the stop flag, the text printed so far (and, under the verification hook only,
@@ -33,6 +33,17 @@ Theorem C22_constructor_forgets : forall terms w,
   end.
 Proof. exact make_query_forgets. Qed.
 
+(* the same for a query built from text (parse_query), zero-argument queries included *)
+Theorem C22_text_constructor_forgets : forall fuel s w,
+  api_parse_query fuel s w =
+  match api_parse_query fuel s world0 with
+  | Ok (POk (g, w0)) => Ok (POk (g, mkWorld (next_id w0) false (stop_after w) (out w)))
+  | Ok PErr => Ok PErr
+  | Panic => Panic
+  | OutOfFuel => OutOfFuel
+  end.
+Proof. exact parse_query_forgets. Qed.
+
 (* ... and the search treats the output as append-only: running with more text already
    printed gives the same node, answer and cut signal, and the same text after the prefix. *)
 Theorem C22_output_is_append_only : forall kb bf pre fuel nd w,
@@ -64,3 +75,4 @@ Check C22_query_independent_of_history : forall kb fuel terms ops w,
 Print Assumptions C22_query_independent_of_history.
 Print Assumptions C22_constructor_forgets.
 Print Assumptions C22_output_is_append_only.
+Print Assumptions C22_text_constructor_forgets.
